@@ -66,52 +66,6 @@ func c12Template(typ, session string) (net.TaggedMarshaler, error) {
 	return nil, fmt.Errorf("harness: unknown gjkr payload type %q", typ)
 }
 
-// c12Slices returns, for every slice-typed field of the state struct, its
-// length and the address of its last element.
-func c12Slices(st interface{}) map[string][2]uintptr {
-	out := map[string][2]uintptr{}
-	v := reflect.ValueOf(st).Elem()
-	for i := 0; i < v.NumField(); i++ {
-		f := v.Field(i)
-		if f.Kind() != reflect.Slice {
-			continue
-		}
-		var last uintptr
-		if n := f.Len(); n > 0 && f.Index(n-1).Kind() == reflect.Ptr {
-			last = f.Index(n - 1).Pointer()
-		}
-		out[v.Type().Field(i).Name] = [2]uintptr{uintptr(f.Len()), last}
-	}
-	return out
-}
-
-// c12Observe calls the real Receive and classifies the reaction.
-func c12Observe(st state.SyncState, msg net.Message, payload interface{}) (string, string, error) {
-	before := c12Slices(st)
-	if err := st.Receive(msg); err != nil {
-		return "", "", fmt.Errorf("Receive returned an error: %v", err)
-	}
-	after := c12Slices(st)
-	grown := []string{}
-	for name, a := range after {
-		b := before[name]
-		switch {
-		case a[0] == b[0] && a[1] == b[1]:
-		case a[0] == b[0]+1 && a[1] == reflect.ValueOf(payload).Pointer():
-			grown = append(grown, name)
-		default:
-			return "corrupted", fmt.Sprintf("field %s changed from %v to %v", name, b, a), nil
-		}
-	}
-	switch len(grown) {
-	case 0:
-		return verifadm.Ignored, "", nil
-	case 1:
-		return verifadm.Accepted, "stored in " + grown[0], nil
-	}
-	return "corrupted", fmt.Sprintf("stored in several fields %v", grown), nil
-}
-
 type c12Gjkr struct {
 	t         *testing.T
 	w         *verifadm.World
@@ -161,7 +115,7 @@ func (h *c12Gjkr) byNext(name string) verifadm.Driver {
 		if o, d, e, stop := verifadm.Dropped(err); stop {
 			return o, d, e
 		}
-		return c12Observe(st, h.w.Net(c, p), p)
+		return verifadm.ObserveSlices(st, h.w.Net(c, p), p)
 	}
 }
 
@@ -285,7 +239,7 @@ func (h *c12Gjkr) afterInitiate(build func(c *verifadm.Case) (state.SyncState, e
 		if o, d, e, stop := verifadm.Dropped(err); stop {
 			return o, d, e
 		}
-		return c12Observe(st, h.w.Net(c, p), p)
+		return verifadm.ObserveSlices(st, h.w.Net(c, p), p)
 	}
 }
 
